@@ -476,6 +476,7 @@ func VerifC13Locks() {
 		return
 	}
 	w.r = r
+	w.scanSpawned() // the persist loop goroutine
 	verifTrackLocks(&r.mx, r)
 	// the scheduler goroutine reads job.sched without the lock: written before the `go` statement that
 	// starts it and next written by that goroutine's own JobCompleted (happens-before via go / program order)
@@ -555,6 +556,29 @@ func VerifC13Locks() {
 		_ = r.Shutdown(&vCtx{done: make(chan struct{})})
 	}
 	verifAssert(verifLockMode(&r.mx) == 0, "C13.lock-released")
+	// goroutines started by the operation (stop delivery, scheduler goroutines) run concurrently with
+	// every other caller: run each of them now, interleaved with a completing job, under the same tracking
+	if op == 1 {
+		// the job whose stop is being delivered completes first (natural completion racing the cancel)
+		verifEvent("then: job completes before the stop is delivered")
+		ret(w.jobs[2])
+	}
+	w.scanSpawned()
+	for _, cg := range w.cancelGos {
+		if !cg.done {
+			cg.done = true
+			verifEvent("then: pending stop delivery runs")
+			verifRunSpawned(cg.idx)
+		}
+	}
+	for _, og := range w.otherGos[1:] { // [0] is the persist loop
+		if !og.done {
+			og.done = true
+			verifEvent("then: another pending goroutine runs")
+			verifRunSpawned(og.idx)
+		}
+	}
+	verifAssert(verifLockMode(&r.mx) == 0, "C13.lock-released")
 	verifReach("op-done")
 }
 
@@ -562,4 +586,9 @@ var verifEntries = map[string]func(){
 	"VerifC12Retention": VerifC12Retention,
 	"VerifC10RoundTrip": VerifC10RoundTrip,
 	"VerifC10Load":      VerifC10Load,
+}
+
+func init() {
+	verifEntries["VerifC18Reserved"] = VerifC18Reserved
+	verifEntries["VerifC02Graph"] = VerifC02Graph
 }
